@@ -272,6 +272,32 @@ def shapes(tier, seed):
        expect=['ok', 'rejected'])
     rej('I:macro-no-variant-accepts', cfgI(), 'mac ra, rb')
     rej('I:macro-too-many-operands', cfgI(v1=(0, 5)), 'mac2 v1, v1')
+    # J: decorated registers (`ix+`, `+ix`, `ix++`, `@sp`) after a numeric-like alternative: the numeric one declines them
+    for name, od in (('address', {'type': 'address', 'bytecode': code('j_n', 4), 'argument': arg(16, True)}),
+                     ('numeric', {'type': 'numeric', 'bytecode': code('j_n', 4), 'argument': arg(16, True)}),
+                     ('relative', {'type': 'relative_address', 'bytecode': code('j_n', 4), 'argument': arg(16, True)})):
+        osetsJ = {'regs': regs_set(), 'num': {'operand_values': {'n': od}},
+                  'post': {'operand_values': {'p': {'type': 'register', 'register': 'ix', 'bytecode': code('j_post', 4),
+                                                    'decorator': {'type': 'plus'}}}},
+                  'pre': {'operand_values': {'p': {'type': 'register', 'register': 'ix', 'bytecode': code('j_pre', 4),
+                                                   'decorator': {'type': 'plus', 'is_prefix': True}}}},
+                  'pp': {'operand_values': {'p': {'type': 'register', 'register': 'ix', 'bytecode': code('j_pp', 4),
+                                                  'decorator': {'type': 'plus_plus'}},
+                                            'a': {'type': 'register', 'register': 'sp', 'bytecode': code('j_at', 4),
+                                                  'decorator': {'type': 'at', 'is_prefix': True}}}}}
+        two = lambda s2: {'count': 2, 'operand_sets': {'list': ['regs', s2]}}  # noqa
+        insJ = {'ld': {'bytecode': code('op_a', 4), 'operands': two('num'), 'variants': [
+            {'bytecode': code('op_b', 4), 'operands': two('post')}, {'bytecode': code('op_c', 4), 'operands': two('pre')},
+            {'bytecode': code('op_d', 4), 'operands': two('pp')}]}}
+        cfgJ = lambda **cs: isa(operand_sets=osetsJ, instructions=insJ, consts=cs)  # noqa
+        for k, (text, st_, oid) in enumerate((('ld rb, ix+', 'post', 'p'), ('ld ra, +ix', 'pre', 'p'), ('ld ra, ix++', 'pp', 'p'),
+                                              ('ld rb, @sp', 'pp', 'a'))):
+            ok(f'J:decorated-register-after-{name}:{text.split(", ")[1]}', cfgJ(),
+               {'mnemonic': 'ld', 'variant': {'post': 1, 'pre': 2, 'pp': 3}[st_], 'text': text,
+                'uses': [{'set': 'regs', 'id': text.split()[1].rstrip(',')}, {'set': st_, 'id': oid}]})
+        if name != 'relative':
+            ok(f'J:number-before-decorated-registers:{name}', cfgJ(v1=(0, 0x7000)),
+               {'mnemonic': 'ld', 'variant': 0, 'text': 'ld ra, v1', 'uses': [{'set': 'regs', 'id': 'ra'}, {'set': 'num', 'id': 'n', 'val': V('v1')}]})
     rej('D:undeclared-register-form', cfgD2(), 't rb')
     rej('D:indirect-of-unlisted-register', cfgD2(), 't [ix]')
     rej('D:register-in-brackets-as-number', cfgD2(), 't [ra]')
